@@ -86,6 +86,50 @@ def mutants(prog):
     return res
 
 
+# value pairs CPython hashes alike (hash(-1) == hash(-2), also for floats): an equality that goes through hashes, or a
+# memo keyed on them, confuses exactly these
+TWINS = [(-1, -2), (-1.0, -2.0), (0, 2 ** 61 - 1), (1, 2 ** 61)]   # int hashes are taken modulo 2**61 - 1
+
+
+def twin_pairs(prog):
+    """pairs of programs that differ in one numeric literal only, the two values being hash twins"""
+    res = []
+    for j, l in enumerate(prog['lets']):
+        if l['val']['k'] == 'num':
+            for x, y in TWINS:
+                if (l['val']['t'] == 'int') == isinstance(x, int):
+                    qa, qb = copy.deepcopy(prog), copy.deepcopy(prog)
+                    qa['lets'][j]['val'] = project.num(x)
+                    qb['lets'][j]['val'] = project.num(y)
+                    res.append(('let value %s / %s' % (x, y), qa, qb))
+
+    def sites(stmts, path):
+        for i, s in enumerate(stmts):
+            if s['k'] == 'gate':
+                for a, arg in enumerate(s['args']):
+                    if arg['k'] == 'num':
+                        yield path + [(i, a)]
+            elif s['k'] == 'loop':
+                yield from sites(s['body']['body'], path + [(i, 'b')])
+            elif s['k'] == 'blk':
+                yield from sites(s['body'], path + [(i, 'c')])
+
+    def setat(q, path, val):
+        cur = q['body']
+        for i, step in path[:-1]:
+            cur = cur[i]['body']['body'] if step == 'b' else cur[i]['body']
+        i, a = path[-1]
+        cur[i]['args'][a] = val
+
+    for path in sites(prog['body'], []):
+        for x, y in TWINS:
+            qa, qb = copy.deepcopy(prog), copy.deepcopy(prog)
+            setat(qa, path, project.num(x))
+            setat(qb, path, project.num(y))
+            res.append(('numeric argument %s / %s' % (x, y), qa, qb))
+    return res
+
+
 def run_pair(job):
     from jaqalpaq.generator import generate_jaqal_program
     ta, tb = job['ta'], job['tb']
@@ -110,8 +154,8 @@ def main(tier):
     wd = core.workdir(PROP)
     jobs = []
     for name, consts, budget in CONFIGS[tier]:
-        progs = passes.enumerate_programs(rep, name, passes.ast_cfg(*consts), wd)
-        rep.cov.setdefault('enumerated_programs', {})[name] = len(progs)
+        progs = passes.enumerate_programs(rep, name, passes.ast_cfg(*consts), wd, budget=budget)
+        rep.cov.setdefault('enumerated_programs', {})[name] = progs.total
         if len(progs) > budget:
             progs = rng.sample(progs, budget)
             rep.cov['exhaustive'] = False
@@ -120,6 +164,8 @@ def main(tier):
             jobs.append({'id': '%s/%d/same' % (name, n), 'prog': p, 'ta': ta, 'tb': ta, 'what': 'identical text'})
             for m, (what, q) in enumerate(mutants(p)):
                 jobs.append({'id': '%s/%d/m%d' % (name, n, m), 'prog': p, 'ta': ta, 'tb': render.render_prog(q), 'what': what})
+            for m, (what, qa, qb) in enumerate(twin_pairs(p)):
+                jobs.append({'id': '%s/%d/t%d' % (name, n, m), 'prog': p, 'ta': render.render_prog(qa), 'tb': render.render_prog(qb), 'what': what})
     rep.phase('tlc_enumeration')
     recs = [r for r in core.pool_map(run_pair, jobs, chunksize=100) if r['kind'] == 'eq']
     rep.phase('replay')
